@@ -22,6 +22,12 @@ func init() {
 // "no" (only through false edges), "" otherwise. cmp receives the compared
 // non-constant operands.
 func natBranchOf(fn *ssa.Function, at *ssa.BasicBlock, cmp *[]ssa.Value) string {
+	return natBranchOfEdge(fn, at, nil, cmp)
+}
+
+// natBranchOfEdge: as natBranchOf, for a value that arrives over the edge at -> to
+// (a phi operand): the edge itself may be the true/false edge of the comparison.
+func natBranchOfEdge(fn *ssa.Function, at, to *ssa.BasicBlock, cmp *[]ssa.Value) string {
 	isUnrestricted := func(v ssa.Value) bool { s, ok := constString(v); return ok && s == "unrestricted" }
 	other := func(a Atom) ssa.Value {
 		if isUnrestricted(a.Y) {
@@ -42,6 +48,18 @@ func natBranchOf(fn *ssa.Function, at *ssa.BasicBlock, cmp *[]ssa.Value) string 
 	no := condEdges(fn, false, func(a Atom) bool { return a.Op == token.EQL && (isUnrestricted(a.X) || isUnrestricted(a.Y)) })
 	if len(yes) == 0 {
 		return ""
+	}
+	if to != nil {
+		for _, e := range yes {
+			if e.From == at && e.To() == to {
+				return "yes"
+			}
+		}
+		for _, e := range no {
+			if e.From == at && e.To() == to {
+				return "no"
+			}
+		}
 	}
 	if reachPath(fn.Blocks[0], at, yes) == nil {
 		return "yes"
@@ -72,7 +90,7 @@ func heapPicks(fn *ssa.Function, heapVal ssa.Value, useBlock *ssa.BasicBlock, cm
 				return nil, false
 			}
 			pred := ph.Block().Preds[i]
-			out = append(out, heapPick{f.Name(), natBranchOf(fn, pred, cmp)})
+			out = append(out, heapPick{f.Name(), natBranchOfEdge(fn, pred, ph.Block(), cmp)})
 		}
 		return out, true
 	}
@@ -272,6 +290,14 @@ func runC03(c *Ctx) {
 	// ---------- O-7 a proxy leaves the pool it was put in (C04's deregistration obligations) ----------
 	c.prefix = "O-7/C04:"
 	c.checkDeregistration(p.Locks())
+	c.prefix = ""
+
+	// ---------- O-8 the pools are only touched under their lock, by the poll's own goroutine ----------
+	// (C02's unique-holder rows and loop provenance: an unlocked Len/Push/Pop races with the locked ones
+	// and loses or duplicates heap entries; a poll goroutine on a shared loop variable serves the wrong pool)
+	c.prefix = "O-8/C02:"
+	c.checkBrokerMatchingRows()
+	c.checkBrokerLoopProvenance()
 	c.prefix = ""
 
 	// ---------- O-6 the legacy client format carries the NAT type too ----------
@@ -535,6 +561,10 @@ func retMayBeNil(r *ssa.Return, idx int) bool {
 				return false
 			}
 			seen[v] = true
+			// the merged value itself may be tested: return behind "phi != nil"
+			if !unknownMay(v, at) {
+				return false
+			}
 			for i, e := range ph.Edges {
 				if rec(e, ph.Block().Preds[i]) {
 					return true
